@@ -1,2 +1,420 @@
-(* CoderGenProofs.v -- ties the knot for the regenerated set_vt / encode / decode over the generated modules (to be filled in). *)
-From DSW Require Import MiniPy.
+(* CoderGenProofs.v -- ties the knot for set_vt / encode / decode of dsw/spiderweb.py REGENERATED from the current source
+   (CoderGen.coder_module = these three functions in front of the regenerated dsw/operation.py), run by MiniPy.call_in, and
+   restates C01 / C06 / C07 for the source text.
+   Compiled on every run of the checks against the freshly generated CoderGen.v / OperationGen.v (harness/regen.py, unit "coder"). *)
+From Coq Require Import Lia ZifyBool.
+From Coq Require Import Permutation.
+From DSW Require Import Py MiniPy Bignum Convert Kmer Graph Coder Spec GraphSpec CoderSpec FastSpec MiniPyLemmas BignumProofs ConvertProofs.
+From DSW.Proofs Require Import KmerProofs VTProofs WalkProofs CoderProofs ComposeProofs.
+From DSWGen Require Import OperationGen CoderGen OperationGenProofs CoderCallees SetVtGenProofs EncodeNormalGenProofs
+  EncodeFastGenProofs DecodeNormalGenProofs DecodeFastGenProofs.
+Open Scope Z_scope.
+Open Scope string_scope.
+Ltac Zify.zify_post_hook ::= Z.to_euclidean_division_equations.
+Local Open Scope Z_scope.
+
+(* running a function of the regenerated spiderweb + operation modules *)
+Definition py2 (fuel : nat) (f : string) (args : list val) : res val := call_in coder_module fuel f args.
+
+(* coder_module = [("decode", _); ("encode", _); ("set_vt", _)] ++ operation_module; call_in resolves a name and runs it with
+   the REST of the list as callees.  The TARGET STATEMENTS are all proved below (summary at the end of the file). *)
+
+(* ---- Part A: the knot ---------------------------------------------------------------------------------------------- *)
+Local Notation cok := CoderCallees.callees_ok.
+
+(* the regenerated dsw/operation.py satisfies what the coder proofs assume of their callees *)
+Theorem coder_callees_ok : forall fuel, (3 <= fuel)%nat -> CoderCallees.callees_ok (call_in operation_module fuel) fuel.
+Proof.
+  intros fuel Hf. unfold CoderCallees.callees_ok. fold (py fuel).
+  split; [|split; [|split; [|split; [|split]]]].
+  - intros bits verbose HB. apply py_bit_to_number_str_arr; assumption.
+  - intros ds b Hd Hb. apply py_calculus_division; assumption.
+  - intros ds b Hd Hb. apply py_calculus_multiplication; [assumption|assumption|lia].
+  - intros ds b Hd Hb. apply py_calculus_addition; assumption.
+  - intros d len r Hd Hne HR Hfs. apply py_number_to_bit_str; assumption.
+  - intros n len r HR Hfs. apply py_number_to_dna_int; assumption.
+Qed.
+
+(* a function of dsw/spiderweb.py in front of the list does not hide a function of dsw/operation.py *)
+Lemma skip_cok g fd m fuel :
+  String.eqb "bit_to_number" g = false -> String.eqb "calculus_division" g = false ->
+  String.eqb "calculus_multiplication" g = false -> String.eqb "calculus_addition" g = false ->
+  String.eqb "number_to_bit" g = false -> String.eqb "number_to_dna" g = false ->
+  cok (call_in m fuel) fuel -> cok (call_in ((g, fd) :: m) fuel) fuel.
+Proof.
+  intros E1 E2 E3 E4 E5 E6 (H1 & H2 & H3 & H4 & H5 & H6). unfold CoderCallees.callees_ok. cbn [call_in].
+  rewrite E1, E2, E3, E4, E5, E6. auto 7.
+Qed.
+
+(* the callees of encode and of decode *)
+Definition encode_callees : module := ("set_vt", set_vt_def) :: operation_module.
+Definition decode_callees : module := ("encode", encode_def) :: encode_callees.
+
+Lemma py2_set_vt_unfold fuel args :
+  py2 fuel "set_vt" args = run_fun (call_in operation_module fuel) fuel set_vt_def args.
+Proof. unfold py2, coder_module. cbn [app call_in String.eqb Ascii.eqb Bool.eqb]. reflexivity. Qed.
+Lemma py2_encode_unfold fuel args :
+  py2 fuel "encode" args = run_fun (call_in encode_callees fuel) fuel encode_def args.
+Proof. unfold py2, coder_module, encode_callees. cbn [app call_in String.eqb Ascii.eqb Bool.eqb]. reflexivity. Qed.
+Lemma py2_decode_unfold fuel args :
+  py2 fuel "decode" args = run_fun (call_in decode_callees fuel) fuel decode_def args.
+Proof. unfold py2, coder_module, decode_callees, encode_callees. cbn [app call_in String.eqb Ascii.eqb Bool.eqb]. reflexivity. Qed.
+
+Lemma encode_callees_ok fuel : (3 <= fuel)%nat -> cok (call_in encode_callees fuel) fuel.
+Proof. intro Hf. apply skip_cok; try reflexivity. apply coder_callees_ok, Hf. Qed.
+Lemma decode_callees_ok fuel : (3 <= fuel)%nat -> cok (call_in decode_callees fuel) fuel.
+Proof. intro Hf. apply skip_cok; try reflexivity. apply encode_callees_ok, Hf. Qed.
+
+Lemma encode_set_vt_ok fuel : (3 <= fuel)%nat -> set_vt_callee (call_in encode_callees fuel) fuel.
+Proof.
+  intros Hf s n Hn Hfn. unfold encode_callees. cbn [call_in String.eqb Ascii.eqb Bool.eqb].
+  apply set_vt_gen; [apply coder_callees_ok, Hf|exact Hn|exact Hfn].
+Qed.
+Lemma decode_set_vt_ok fuel : (3 <= fuel)%nat -> set_vt_callee (call_in decode_callees fuel) fuel.
+Proof.
+  intros Hf s n Hn Hfn. unfold decode_callees. cbn [call_in String.eqb Ascii.eqb Bool.eqb].
+  apply (encode_set_vt_ok fuel Hf); assumption.
+Qed.
+
+Theorem py2_set_vt : forall fuel s n, (3 <= fuel)%nat -> 1 <= n -> (2 * Z.to_nat n < fuel)%nat ->
+  py2 fuel "set_vt" [VStr s; VInt n] = res_of_str (set_vt s n).
+Proof.
+  intros fuel s n Hf Hn Hfn. rewrite py2_set_vt_unfold.
+  apply set_vt_gen; [apply coder_callees_ok, Hf|exact Hn|exact Hfn].
+Qed.
+
+Theorem py2_encode_ok : forall fuel bits acc v faster vt sh verbose mf r, (3 <= fuel)%nat ->
+  acc_shape acc -> 0 <= v < Z.of_nat (length acc) -> table_shape (length acc) sh ->
+  Forall (fun a => 0 <= a <= 1) bits -> 0 <= vt -> (2 * Z.to_nat vt < fuel)%nat -> (mf < fuel)%nat ->
+  Coder.encode bits acc v faster vt sh mf = Ok r ->
+  py2 fuel "encode" [varr bits; varr2 acc; VInt v; VBool faster; VInt vt; v_table sh; VBool false; VBool verbose]
+  = Ret (res_of_encode r).
+Proof.
+  intros fuel bits acc v faster vt sh verbose mf r Hf HA Hv HT HB Hvt Hfv Hmf HE. rewrite py2_encode_unfold.
+  destruct faster.
+  - eapply encode_fast_gen_ok; try eassumption; [apply encode_callees_ok, Hf|apply encode_set_vt_ok, Hf].
+  - eapply encode_normal_gen_ok; try eassumption; [apply encode_callees_ok, Hf|apply encode_set_vt_ok, Hf].
+Qed.
+
+Theorem py2_encode_raise : forall fuel bits acc v faster vt sh verbose mf e, (3 <= fuel)%nat ->
+  acc_shape acc -> 0 <= v < Z.of_nat (length acc) -> table_shape (length acc) sh ->
+  Forall (fun a => 0 <= a <= 1) bits -> 0 <= vt -> (2 * Z.to_nat vt < fuel)%nat -> (mf < fuel)%nat ->
+  Coder.encode bits acc v faster vt sh mf = Raise e ->
+  py2 fuel "encode" [varr bits; varr2 acc; VInt v; VBool faster; VInt vt; v_table sh; VBool false; VBool verbose]
+  = Exn e.
+Proof.
+  intros fuel bits acc v faster vt sh verbose mf e Hf HA Hv HT HB Hvt Hfv Hmf HE. rewrite py2_encode_unfold.
+  destruct faster.
+  - eapply encode_fast_gen_raise; try eassumption; [apply encode_callees_ok, Hf|apply encode_set_vt_ok, Hf].
+  - eapply encode_normal_gen_raise; try eassumption; [apply encode_callees_ok, Hf|apply encode_set_vt_ok, Hf].
+Qed.
+
+(* DecodeNormalGenProofs.vt_ok and DecodeFastGenProofs.vt_ok have the same text *)
+Definition vt_ok := DecodeNormalGenProofs.vt_ok.
+Lemma vt_ok_fast vt fuel : vt_ok vt fuel -> DecodeFastGenProofs.vt_ok vt fuel.
+Proof. intro H. exact H. Qed.
+
+Theorem py2_decode_ok : forall fuel s L acc v faster vt sh verbose r, (3 <= fuel)%nat ->
+  acc_shape acc -> 0 <= v < Z.of_nat (length acc) -> table_shape (length acc) sh -> vt_ok vt fuel -> 0 <= L ->
+  (4 * length s + 16 <= fuel)%nat ->
+  Coder.decode s L acc v faster vt sh = Ok r ->
+  py2 fuel "decode" [VStr s; VInt L; varr2 acc; VInt v; VBool faster; v_optstr vt; v_table sh; VBool verbose] = Ret (varr r).
+Proof.
+  intros fuel s L acc v faster vt sh verbose r Hf HA Hv HT Hvt HL Hfs HD. rewrite py2_decode_unfold.
+  destruct faster.
+  - apply decode_fast_gen_ok; try assumption; [apply decode_callees_ok, Hf|apply decode_set_vt_ok, Hf].
+  - apply decode_normal_gen_ok; try assumption; [apply decode_callees_ok, Hf|apply decode_set_vt_ok, Hf].
+Qed.
+
+Theorem py2_decode_raise : forall fuel s L acc v faster vt sh verbose e, (3 <= fuel)%nat ->
+  acc_shape acc -> 0 <= v < Z.of_nat (length acc) -> table_shape (length acc) sh -> vt_ok vt fuel -> 0 <= L ->
+  (4 * length s + 16 <= fuel)%nat ->
+  Coder.decode s L acc v faster vt sh = Raise e ->
+  py2 fuel "decode" [VStr s; VInt L; varr2 acc; VInt v; VBool faster; v_optstr vt; v_table sh; VBool verbose] = Exn e.
+Proof.
+  intros fuel s L acc v faster vt sh verbose e Hf HA Hv HT Hvt HL Hfs HD. rewrite py2_decode_unfold.
+  destruct faster.
+  - apply decode_fast_gen_raise; try assumption; [apply decode_callees_ok, Hf|apply decode_set_vt_ok, Hf].
+  - apply decode_normal_gen_raise; try assumption; [apply decode_callees_ok, Hf|apply decode_set_vt_ok, Hf].
+Qed.
+
+
+(* ---- Part B: C07, C06, C01 for the source text --------------------------------------------------------------------- *)
+(* bridges from the vocabulary of Spec.v / GraphSpec.v / CoderSpec.v to the hypotheses of Part A *)
+Lemma shaped_acc_shape acc : shaped acc -> acc_shape acc.
+Proof.
+  intros (H4 & HR). unfold acc_shape, rows4, entries_in_range, nrows in *.
+  rewrite Forall_forall in *. intros row Hin. split; [apply H4, Hin|apply HR, Hin].
+Qed.
+
+Lemma perm_table_table_shape sh acc : perm_table sh (nrows acc) -> table_shape (length acc) sh.
+Proof.
+  unfold perm_table, table_shape, nrows. destruct sh as [t|]; [|trivial]. intros (HL & HP).
+  split; [lia|]. eapply Forall_impl; [|exact HP]. cbv beta. intros r Hr. split.
+  - apply Permutation_length in Hr. exact Hr.
+  - apply Permutation_sym in Hr. eapply Permutation_NoDup; [exact Hr|].
+    repeat constructor; cbn [In]; intuition discriminate.
+Qed.
+
+Lemma bits_01 l : bits_ok l -> Forall (fun a => 0 <= a <= 1) l.
+Proof. apply Forall_impl. unfold bit. intros; lia. Qed.
+
+(* -- C07 -- *)
+Theorem C07_set_vt_source : forall fuel s vs n, nuc_values s = Ok vs -> 1 <= n -> (3 <= fuel)%nat -> (2 * Z.to_nat n < fuel)%nat ->
+  exists ds, is_kmer (Z.to_nat (n - 1)) ds /\ kmer_index ds = asc_sum vs mod 4 ^ (n - 1)
+             /\ py2 fuel "set_vt" [VStr s; VInt n] = Ret (VStr (nuc_char (sumZ vs mod 4) :: map nuc_char ds)).
+Proof.
+  intros fuel s vs n Hvs Hn Hf Hfn. destruct (set_vt_formula s vs n Hvs Hn) as (ds & Hk & Hi & E).
+  exists ds. split; [exact Hk|]. split; [exact Hi|].
+  rewrite py2_set_vt by assumption. rewrite E. reflexivity.
+Qed.
+
+Theorem C07_foreign_source : forall fuel s n, ~ acgt s -> 1 <= n -> (3 <= fuel)%nat -> (2 * Z.to_nat n < fuel)%nat ->
+  py2 fuel "set_vt" [VStr s; VInt n] = Exn ValueError.
+Proof.
+  intros fuel s n Hs Hn Hf Hfn. rewrite py2_set_vt by assumption. rewrite (set_vt_foreign s n Hs). reflexivity.
+Qed.
+
+(* -- C06 -- *)
+Theorem C06_normal_reject_source : forall fuel acc v0 sh s L vt verbose,
+  shaped acc -> in_range acc v0 -> perm_table sh (nrows acc) -> 0 <= L -> vt_ok vt fuel -> (4 * length s + 16 <= fuel)%nat ->
+  ~ (is_walk acc v0 s /\ check_ok vt s) ->
+  py2 fuel "decode" [VStr s; VInt L; varr2 acc; VInt v0; VBool false; v_optstr vt; v_table sh; VBool verbose] = Exn ValueError.
+Proof.
+  intros fuel acc v0 sh s L vt verbose Hs Hv Hp HL Hvt Hf Hn.
+  destruct (decode_normal_iff acc v0 sh s L vt Hs Hv (perm_table_shape sh _ Hp) HL) as (_ & Hrej).
+  apply py2_decode_raise; try assumption; [lia|apply shaped_acc_shape, Hs|apply perm_table_table_shape, Hp|apply Hrej, Hn].
+Qed.
+
+Theorem C06_normal_accept_source : forall fuel acc v0 sh s L vt verbose,
+  shaped acc -> in_range acc v0 -> perm_table sh (nrows acc) -> 0 <= L -> vt_ok vt fuel -> (4 * length s + 16 <= fuel)%nat ->
+  is_walk acc v0 s /\ check_ok vt s ->
+  exists bits, py2 fuel "decode" [VStr s; VInt L; varr2 acc; VInt v0; VBool false; v_optstr vt; v_table sh; VBool verbose] = Ret (varr bits)
+               /\ Z.of_nat (length bits) = L.
+Proof.
+  intros fuel acc v0 sh s L vt verbose Hs Hv Hp HL Hvt Hf Hw.
+  destruct (decode_normal_iff acc v0 sh s L vt Hs Hv (perm_table_shape sh _ Hp) HL) as (Hacc & _).
+  destruct (Hacc Hw) as (bits & HD & Hlen). exists bits. split; [|exact Hlen].
+  apply py2_decode_ok; try assumption; [lia|apply shaped_acc_shape, Hs|apply perm_table_table_shape, Hp].
+Qed.
+
+(* -- C01 -- *)
+(* a strand produced with fuel mf has at most mf nucleotides *)
+Lemma bind_ok {A B} (r : result A) (f : A -> result B) b : bind r f = Ok b -> exists a, r = Ok a /\ f a = Ok b.
+Proof. destruct r as [a|e|]; cbn [bind]; intro H; [exists a; auto|discriminate|discriminate]. Qed.
+
+Ltac bok H x Hx := apply bind_ok in H; destruct H as (x & Hx & H).
+
+Lemma encode_normal_length : forall mf q acc v sh s, encode_normal mf q acc v sh = Ok s -> (length s <= mf)%nat.
+Proof.
+  induction mf as [|mf IH]; intros q acc v sh s H.
+  - cbn [encode_normal] in H. destruct (is_zero_str q); [|discriminate]. injection H as <-. cbn; lia.
+  - cbn [encode_normal] in H. destruct (is_zero_str q); [injection H as <-; cbn; lia|].
+    bok H row Hrow. cbv zeta in H. destruct (used_indices row) as [|j [|j2 u]]; [discriminate| |].
+    + bok H nxt Hnxt. bok H rest Hrest. injection H as <-. apply IH in Hrest. cbn [length]. lia.
+    + destruct (calculus_division q _) as (q' & rem). bok H rem' Hrem. bok H jj Hjj. bok H nxt Hnxt. bok H rest Hrest.
+      injection H as <-. apply IH in Hrest. cbn [length]. lia.
+Qed.
+
+Lemma encode_fast_length : forall mf bits acc v sh s, encode_fast mf bits acc v sh = Ok s -> (length s <= mf)%nat.
+Proof.
+  induction mf as [|mf IH]; intros bits acc v sh s H.
+  - destruct bits; cbn [encode_fast] in H; [|discriminate]. injection H as <-. cbn; lia.
+  - destruct bits as [|b0 bits1]; cbn [encode_fast] in H; [injection H as <-; cbn; lia|].
+    bok H row Hrow. cbv zeta in H.
+    destruct (Z.of_nat (length (used_indices row)) =? 4).
+    { destruct (match bits1 with [] => (b0 * 2, []) | b1 :: bits2 => (b0 * 2 + b1, bits2) end) as (rem & bits').
+      bok H rem' Hrem. bok H jj Hjj. bok H nxt Hnxt. bok H rest Hrest.
+      injection H as <-. apply IH in Hrest. cbn [length]. lia. }
+    destruct (Z.of_nat (length (used_indices row)) =? 2).
+    { bok H rem' Hrem. bok H jj Hjj. bok H nxt Hnxt. bok H rest Hrest.
+      injection H as <-. apply IH in Hrest. cbn [length]. lia. }
+    destruct (Z.of_nat (length (used_indices row)) =? 1); [|discriminate].
+    bok H jj Hjj. bok H nxt Hnxt. bok H rest Hrest.
+    injection H as <-. apply IH in Hrest. cbn [length]. lia.
+Qed.
+
+Lemma encode_length : forall bits acc v faster vt sh mf s chk,
+  Coder.encode bits acc v faster vt sh mf = Ok (s, chk) -> (length s <= mf)%nat.
+Proof.
+  intros bits acc v faster vt sh mf s chk H. unfold Coder.encode in H. bok H s' Hs'.
+  assert (s' = s) as ->.
+  { destruct (0 <? vt); [bok H c Hc|]; injection H as -> _; reflexivity. }
+  destruct faster; [eapply encode_fast_length|eapply encode_normal_length]; exact Hs'.
+Qed.
+
+(* the check returned by encode has the requested length *)
+Lemma encode_check_ok : forall bits acc v faster vt sh mf s chk fuel, 0 <= vt -> (2 * Z.to_nat vt < fuel)%nat ->
+  Coder.encode bits acc v faster vt sh mf = Ok (s, chk) -> vt_ok chk fuel.
+Proof.
+  intros bits acc v faster vt sh mf s chk fuel Hvt Hf H. unfold Coder.encode in H. bok H s' Hs'.
+  destruct (0 <? vt) eqn:E.
+  - bok H c Hc. injection H as _ <-. destruct (set_vt_length s' vt c ltac:(lia) Hc) as (HL & _).
+    unfold vt_ok, DecodeNormalGenProofs.vt_ok. split; [intros ->; cbn [length] in HL; lia|lia].
+  - injection H as _ <-. exact I.
+Qed.
+
+Lemma C01_source_core : forall fuel acc v0 sh bits vt_len verbose faster s chk,
+  shaped acc -> in_range acc v0 -> perm_table sh (nrows acc) -> bits_ok bits -> 0 <= vt_len ->
+  (4 * (length bits * length acc) + 2 * Z.to_nat vt_len + 20 <= fuel)%nat ->
+  Coder.encode bits acc v0 faster vt_len sh (Z.to_nat (Z.of_nat (length bits) * nrows acc)) = Ok (s, chk) ->
+  Coder.decode s (Z.of_nat (length bits)) acc v0 faster chk sh = Ok bits ->
+  py2 fuel "encode" [varr bits; varr2 acc; VInt v0; VBool faster; VInt vt_len; v_table sh; VBool false; VBool verbose]
+    = Ret (res_of_encode (s, chk))
+  /\ py2 fuel "decode" [VStr s; VInt (Z.of_nat (length bits)); varr2 acc; VInt v0; VBool faster; v_optstr chk; v_table sh; VBool verbose]
+    = Ret (varr bits).
+Proof.
+  intros fuel acc v0 sh bits vt_len verbose faster s chk Hs Hv Hp Hb Hvt Hf HE HD.
+  assert (Hmf : Z.to_nat (Z.of_nat (length bits) * nrows acc) = (length bits * length acc)%nat) by (unfold nrows; lia).
+  rewrite Hmf in HE. pose proof (encode_length _ _ _ _ _ _ _ _ _ HE) as Hlen.
+  split.
+  - eapply py2_encode_ok; [| | | | | | | |exact HE]; try assumption;
+      [lia|apply shaped_acc_shape, Hs|apply perm_table_table_shape, Hp|apply bits_01, Hb|lia|lia].
+  - apply py2_decode_ok; try assumption;
+      [lia|apply shaped_acc_shape, Hs|apply perm_table_table_shape, Hp| |lia|lia].
+    eapply encode_check_ok; [exact Hvt| |exact HE]. lia.
+Qed.
+
+Theorem C01_normal_source : forall fuel acc v0 sh bits vt_len verbose,
+  shaped acc -> wf_from acc v0 -> perm_table sh (nrows acc) -> bits_ok bits -> 0 <= vt_len ->
+  (4 * (length bits * length acc) + 2 * Z.to_nat vt_len + 20 <= fuel)%nat ->
+  exists s chk,
+    py2 fuel "encode" [varr bits; varr2 acc; VInt v0; VBool false; VInt vt_len; v_table sh; VBool false; VBool verbose]
+      = Ret (res_of_encode (s, chk))
+    /\ py2 fuel "decode" [VStr s; VInt (Z.of_nat (length bits)); varr2 acc; VInt v0; VBool false; v_optstr chk; v_table sh; VBool verbose]
+      = Ret (varr bits).
+Proof.
+  intros fuel acc v0 sh bits vt_len verbose Hs Hwf Hp Hb Hvt Hf.
+  destruct (C01_normal_wf acc v0 sh bits vt_len Hs Hwf Hp Hb) as (s & chk & HE & _ & HD).
+  exists s, chk. eapply C01_source_core; try eassumption. apply co_wf_in_range, Hwf.
+Qed.
+
+Theorem C01_fast_source : forall fuel acc v0 sh bits vt_len verbose,
+  shaped acc -> wf_from acc v0 -> perm_table sh (nrows acc) -> bits_ok bits -> no_outdeg3 acc -> 0 <= vt_len ->
+  (4 * (length bits * length acc) + 2 * Z.to_nat vt_len + 20 <= fuel)%nat ->
+  exists s chk,
+    py2 fuel "encode" [varr bits; varr2 acc; VInt v0; VBool true; VInt vt_len; v_table sh; VBool false; VBool verbose]
+      = Ret (res_of_encode (s, chk))
+    /\ py2 fuel "decode" [VStr s; VInt (Z.of_nat (length bits)); varr2 acc; VInt v0; VBool true; v_optstr chk; v_table sh; VBool verbose]
+      = Ret (varr bits).
+Proof.
+  intros fuel acc v0 sh bits vt_len verbose Hs Hwf Hp Hb Hno Hvt Hf.
+  destruct (C01_fast_wf acc v0 sh bits vt_len Hs Hwf Hp Hb Hno) as (s & chk & HE & _ & _ & _ & HD).
+  exists s, chk. eapply C01_source_core; try eassumption. apply co_wf_in_range, Hwf.
+Qed.
+
+(* ---- non-vacuity: the GC-balanced order-2 graph of the doctests (Properties/C01.v, C06.v), through the regenerated source -- *)
+Definition gc_acc : accessor :=
+  [[-1;-1;-1;-1]; [4;-1;-1;7]; [8;-1;-1;11]; [-1;-1;-1;-1]; [-1;1;2;-1]; [-1;-1;-1;-1]; [-1;-1;-1;-1]; [-1;13;14;-1];
+   [-1;1;2;-1]; [-1;-1;-1;-1]; [-1;-1;-1;-1]; [-1;13;14;-1]; [-1;-1;-1;-1]; [4;-1;-1;7]; [8;-1;-1;11]; [-1;-1;-1;-1]].
+Definition gc_tbl : list (list Z) := repeat [2; 0; 3; 1] 16.
+Definition gc_live : list Z := [1; 2; 4; 7; 8; 11; 13; 14].
+
+Lemma gc_shaped : shaped gc_acc.
+Proof.
+  split; unfold rows4, entries_in_range, gc_acc; repeat (apply Forall_cons || apply Forall_nil); try reflexivity;
+    unfold nrows; cbn [length]; lia.
+Qed.
+
+Lemma gc_closed : forall u v, reach gc_acc u v -> In u gc_live -> In v gc_live.
+Proof.
+  intros u v H. induction H as [u|u j w Hj He _ IH]; intro Hin; [exact Hin|]. apply IH. clear IH.
+  assert (Hj' : j = 0 \/ j = 1 \/ j = 2 \/ j = 3) by lia.
+  unfold gc_live in Hin. cbn [In] in Hin.
+  repeat match goal with H : _ \/ _ |- _ => destruct H as [H|H] end; try contradiction; subst u j;
+    vm_compute in He; try (exfalso; apply He; reflexivity); vm_compute; repeat ((left; reflexivity) || right).
+Qed.
+
+Lemma gc_wf : wf_from gc_acc 1.
+Proof.
+  intros v Hr. apply gc_closed in Hr; [|left; reflexivity]. unfold gc_live in Hr. cbn [In] in Hr.
+  repeat match goal with H : _ \/ _ |- _ => destruct H as [H|H] end; try contradiction; subst v;
+    (split; [unfold in_range, nrows; cbn [length gc_acc]; lia|]);
+    (split; [|eexists; split; [apply reach_refl|vm_compute; discriminate]]).
+  all: try (exists 0; split; [lia|vm_compute; discriminate]).
+  all: exists 1; split; [lia|vm_compute; discriminate].
+Qed.
+
+Lemma gc_no3 : no_outdeg3 gc_acc.
+Proof.
+  intros v Hv. unfold in_range, nrows in Hv. cbn [length gc_acc] in Hv.
+  assert (H : v = 0 \/ v = 1 \/ v = 2 \/ v = 3 \/ v = 4 \/ v = 5 \/ v = 6 \/ v = 7 \/ v = 8 \/ v = 9 \/ v = 10 \/ v = 11
+              \/ v = 12 \/ v = 13 \/ v = 14 \/ v = 15) by lia.
+  repeat match goal with H : _ \/ _ |- _ => destruct H as [H|H] end; subst v; vm_compute; discriminate.
+Qed.
+
+Lemma gc_perm : perm_table (Some gc_tbl) (nrows gc_acc).
+Proof.
+  split; [reflexivity|]. unfold gc_tbl. apply Forall_forall. intros r Hr. apply repeat_spec in Hr. subst r.
+  apply NoDup_Permutation.
+  - repeat constructor; cbn [In]; intuition discriminate.
+  - repeat constructor; cbn [In]; intuition discriminate.
+  - intro x. cbn [In]. intuition.
+Qed.
+
+Example coder_source_nonvacuous :
+  (* arbitrary-precision mode with a check: the doctest *)
+  py2 600 "encode" [varr [0;1;0;1;0;1;0;1]; varr2 gc_acc; VInt 1; VBool false; VInt 5; v_table None; VBool false; VBool false]
+    = Ret (res_of_encode ([84;67;84;67;84;67;84], Some [84;65;65;71;67]))
+  /\ py2 600 "decode" [VStr [84;67;84;67;84;67;84]; VInt 8; varr2 gc_acc; VInt 1; VBool false; v_optstr (Some [84;65;65;71;67]); v_table None; VBool false]
+    = Ret (varr [0;1;0;1;0;1;0;1])
+  (* fast mode, verbose *)
+  /\ py2 600 "encode" [varr [0;1;0;1;0;1;0;1]; varr2 gc_acc; VInt 1; VBool true; VInt 5; v_table None; VBool false; VBool true]
+    = Ret (res_of_encode ([65;71;65;71;65;71;65;71], Some [65;65;65;84;65]))
+  /\ py2 600 "decode" [VStr [65;71;65;71;65;71;65;71]; VInt 8; varr2 gc_acc; VInt 1; VBool true; v_optstr (Some [65;65;65;84;65]); v_table None; VBool true]
+    = Ret (varr [0;1;0;1;0;1;0;1])
+  (* with a shuffle table, without a check *)
+  /\ py2 600 "encode" [varr [0;1;1;1;0;1;0;0]; varr2 gc_acc; VInt 1; VBool false; VInt 0; v_table (Some gc_tbl); VBool false; VBool false]
+    = Ret (res_of_encode ([84;67;65;67;65;71;65], None))
+  /\ py2 600 "decode" [VStr [84;67;65;67;65;71;65]; VInt 8; varr2 gc_acc; VInt 1; VBool false; v_optstr None; v_table (Some gc_tbl); VBool false]
+    = Ret (varr [0;1;1;1;0;1;0;0])
+  (* rejected: a non-walk, a foreign character, a wrong check *)
+  /\ py2 600 "decode" [VStr [84;67;84;65]; VInt 8; varr2 gc_acc; VInt 1; VBool false; v_optstr None; v_table None; VBool false] = Exn ValueError
+  /\ py2 600 "decode" [VStr [84;78]; VInt 8; varr2 gc_acc; VInt 1; VBool false; v_optstr None; v_table None; VBool false] = Exn ValueError
+  /\ py2 600 "decode" [VStr [84;67;84;67;84;67;84]; VInt 8; varr2 gc_acc; VInt 1; VBool false; v_optstr (Some [84;65;65;71;71]); v_table None; VBool false]
+    = Exn ValueError
+  (* set_vt *)
+  /\ py2 600 "set_vt" [VStr [84;67;84;67;84;67;84]; VInt 5] = Ret (VStr [84;65;65;71;67])
+  /\ py2 600 "set_vt" [VStr [84;78]; VInt 5] = Exn ValueError
+  (* the hypotheses of the theorems hold of these inputs *)
+  /\ shaped gc_acc /\ wf_from gc_acc 1 /\ no_outdeg3 gc_acc /\ perm_table None (nrows gc_acc) /\ perm_table (Some gc_tbl) (nrows gc_acc)
+  /\ bits_ok [0;1;0;1;0;1;0;1] /\ (4 * (length [0;1;0;1;0;1;0;1] * length gc_acc) + 2 * Z.to_nat 5 + 20 <= 600)%nat
+  /\ vt_ok (Some [84;65;65;71;67]) 600 /\ ~ is_walk gc_acc 1 [84;67;84;65] /\ ~ acgt [84;78]
+  /\ nuc_values [84;67;84;67;84;67;84] = Ok [3;1;3;1;3;1;3].
+Proof.
+  repeat match goal with |- _ /\ _ => split end; try (vm_compute; reflexivity).
+  - exact gc_shaped.
+  - exact gc_wf.
+  - exact gc_no3.
+  - exact gc_perm.
+  - repeat constructor; (left; reflexivity) || (right; reflexivity).
+  - cbn [length gc_acc]. lia.
+  - split; [discriminate|cbn [length]; lia].
+  - cbn [is_walk]. intros (j1 & E1 & _ & _ & j2 & E2 & _ & _ & j3 & E3 & _ & _ & j4 & E4 & _ & H4 & _).
+    vm_compute in E1. injection E1 as <-. vm_compute in E2. injection E2 as <-.
+    vm_compute in E3. injection E3 as <-. vm_compute in E4. injection E4 as <-. vm_compute in H4. apply H4. reflexivity.
+  - intro H. inversion H as [|? ? _ H2]. inversion H2 as [|? ? H3 _]. vm_compute in H3. discriminate.
+Qed.
+
+(* TARGET STATEMENTS: all proved above, exactly as stated (vt_ok is DecodeNormalGenProofs.vt_ok, convertible with
+   DecodeFastGenProofs.vt_ok: lemma vt_ok_fast).
+   Part A: coder_callees_ok, py2_set_vt, py2_encode_ok, py2_encode_raise, py2_decode_ok, py2_decode_raise.
+   Part B: C07_set_vt_source, C07_foreign_source, C06_normal_reject_source, C06_normal_accept_source,
+   C01_normal_source, C01_fast_source (extra hypothesis no_outdeg3 acc), both with the fuel bound of the statement
+   (4 * (length bits * length acc) + 2 * Z.to_nat vt_len + 20 <= fuel): the model fuel is mf = length bits * length acc, a strand
+   produced with fuel mf has at most mf nucleotides (encode_normal_length, encode_fast_length, encode_length), and the check
+   returned by encode has length vt_len (encode_check_ok, from VTProofs.set_vt_length).  Example coder_source_nonvacuous. *)
+
+Print Assumptions coder_callees_ok.
+Print Assumptions py2_set_vt.
+Print Assumptions py2_encode_ok.
+Print Assumptions py2_encode_raise.
+Print Assumptions py2_decode_ok.
+Print Assumptions py2_decode_raise.
+Print Assumptions C07_set_vt_source.
+Print Assumptions C07_foreign_source.
+Print Assumptions C06_normal_reject_source.
+Print Assumptions C06_normal_accept_source.
+Print Assumptions C01_normal_source.
+Print Assumptions C01_fast_source.
+Print Assumptions coder_source_nonvacuous.
